@@ -64,6 +64,10 @@ SCENARIOS = [
     (('edge', 'D50_input', 'lo', 1),) + (('click', 'D50_down_button'),) * 2,
     (('edge', 'D15_input', 'lo', 1),) + (('click', 'D50_down_button'),) * 3,
     (('text', 'Dp_input', '600'), ('click', 'Dp_down_button'), ('click', 'Dp_up_button'), ('click', 'Dp_up_button')),
+    # corpus: D50 just above the pseudo-liquid limit of the slurry's own diameter but below the limit of the larger
+    # pipeline sections (found by the thorough tier, 2026-10-01: an over-strict oracle, see DESIGN.md 0.5)
+    (('edge', 'D15_input', 'lo', 1), ('edge', 'D50_input', 'lo', 1)),
+    (('edge', 'D15_input', 'lo', 1), ('edge', 'D50_input', 'lo', 1), ('text', 'Dp_input', '600'), ('click', 'D50_down_button')),
 ]
 
 
